@@ -235,7 +235,7 @@ def cases(draw):
         ps = [f"p{j}" for j in range(npar)]
         body = [f"def {fn}({', '.join(ps)}):"]
         body.append(f"    d{i % 6}.Setting = {100 + i}" + (f" + {ps[0]}" if ps else ""))
-        shape = draw(st.integers(0, 6))
+        shape = draw(st.integers(0, 10))
         if shape == 1:
             body += [f"    if d0.On > {i}:", f"        d1.Mode = {i}", "    else:", f"        d1.Mode = {-i}"]
         elif shape == 2:
@@ -246,6 +246,21 @@ def cases(draw):
             body += [f"    c = 0", f"    while c < 2:", f"        c += 1", f"        if d2.On > c:", f"            continue", f"        d3.Setting = c"]
         elif shape == 5:
             body += [f"    d3.Setting = [4, 5, 6][min(max(d3.On, 0), 2)]"]
+        elif shape == 7:
+            # break / continue of an outer loop behind a list loop in the same body (the list loop's own labels are the
+            # nearest ones in emission order, but not the ones meant)
+            kw = draw(st.sampled_from(["continue", "break"]))
+            body += [f"    for i in range(3):", f"        for e in [1, 2]:", f"            d2.Setting = e + i + {i}", f"        if d1.On > i:", f"            {kw}", f"        d3.Setting = i + {i}"]
+        elif shape == 8:
+            kw = draw(st.sampled_from(["continue", "break"]))
+            body += [f"    c = 0", f"    while c < 3:", f"        c += 1", f"        for e in [3, 4]:", f"            d2.Setting = e * c", f"        if d2.On > c:", f"            {kw}", f"        d3.Setting = c + {i}"]
+        elif shape == 9:
+            # a branch whose operand is the hash of a name with '#', ':' or blanks in it (text-level label handling)
+            nm = draw(st.sampled_from(["Slot#2", "Tank #1", "a:#b", "x # y", "end: #", "#"]))
+            body += [f"    if d0.Setting != HASH(\"{nm}\"):", f"        d1.Mode = {i}", "    else:", f"        d1.Mode = {-i - 1}"]
+        elif shape == 10:
+            nm = draw(st.sampled_from(["Slot#2", "Tank #1", "a:#b", "x # y"]))
+            body += [f"    c = 0", f"    while d0.Setting != HASH(\"{nm}\"):", f"        c += 1", f"        d3.Setting = c", f"        if c > 1:", f"            break"]
         tail = draw(st.integers(0, 9))
         # calls to earlier functions visible from this file
         vis = [d for d in defined if d[3] == o or (o == -1 and d[3] >= 0)]
